@@ -133,6 +133,7 @@ class C06(runner.Prop):
         # a route must not change what the flatten route records (namespace, none_is_leaf): the expected
         # compatibility below is computed from the *flatten* route's namespaces, not from the routed specs' own
         FA, FB = spec_via('flatten', ta, cfga, ma), spec_via('flatten', tb, cfgb, mb)
+        expected_ns = {'a': FA.namespace, 'b': FB.namespace}
         for name, R, F, msR in (('a', A, FA, msa), ('b', B, FB, msb)):
             if case['r' + name] == 'collection' and R.namespace == '' and R.none_is_leaf == F.none_is_leaf \
                     and not any(n.kind == 'custom' for n in msR.walk()):
@@ -140,11 +141,12 @@ class C06(runner.Prop):
                 # custom node) made it relevant; the constructors do not - observed on the unchanged tree, and equality
                 # treats '' as compatible with every namespace, so the property is not concerned
                 ctx.label('constructor_without_mode_namespace_tag')
+                expected_ns[name] = ''        # ... and that untagged treespec is what takes part in the comparison
                 continue
             if R.namespace != F.namespace or R.none_is_leaf != F.none_is_leaf:
                 ctx.fail('route/attributes', f'{case["r" + name]}: namespace {R.namespace!r} none_is_leaf {R.none_is_leaf} '
                                              f'vs flatten route {F.namespace!r} {F.none_is_leaf}; spec={R}')
-        ns_ok = (not FA.namespace) or (not FB.namespace) or FA.namespace == FB.namespace
+        ns_ok = (not expected_ns['a']) or (not expected_ns['b']) or expected_ns['a'] == expected_ns['b']
         want = cfga['nil'] == cfgb['nil'] and ns_ok and model.spec_eq(msa, msb)
         got = (A == B)
         ctx.label('equal' if want else 'unequal', f'rel:{case["rel"]}')
